@@ -142,7 +142,42 @@ def zone_names():
     return _ZONES
 
 
+_TRANSITIONS = {}
+
+
+def _zone_transitions(z):
+    if z not in _TRANSITIONS:
+        import pytz
+        from hszinc import zoneinfo
+        tz = pytz.timezone(zoneinfo.get_tz_map()[z])
+        tr = [t for t in getattr(tz, '_utc_transition_times', []) if t.year >= 1900]
+        _TRANSITIONS[z] = tr[-40:] or [datetime.datetime(2020, 1, 1)]
+    return _TRANSITIONS[z]
+
+
 def datetimes():
+    from .model import dt_text
+    return st.one_of(_plain_datetimes(), _plain_datetimes(), _transition_datetimes())
+
+
+def _transition_datetimes():
+    """instants within +-1 h of a DST/offset transition of the zone (ambiguous and skipped local times)"""
+    from .model import dt_text
+
+    def build(z, k, delta, us):
+        import pytz
+        from hszinc import zoneinfo
+        tr = _zone_transitions(z)
+        i = tr[k % len(tr)] + datetime.timedelta(seconds=delta, microseconds=us)
+        off = pytz.utc.localize(i).astimezone(pytz.timezone(zoneinfo.get_tz_map()[z])).utcoffset()
+        return ['dt', dt_text(i), int(off.total_seconds()), z]
+    zones = st.sampled_from(['New_York', 'Los_Angeles', 'London', 'Paris', 'Sydney', 'Lord_Howe', 'Chatham', 'Sao_Paulo', 'Cairo',
+                             'Tehran', 'Auckland', 'Santiago', 'Berlin', 'Adelaide']) | st.sampled_from(zone_names())
+    return st.builds(build, zones, st.integers(0, 39), st.sampled_from([-3600, -1800, -1, 0, 1, 1799, 1800, 3599, 3600]) |
+                     st.integers(-3600, 3600), st.sampled_from([0, 0, 1, 999999]))
+
+
+def _plain_datetimes():
     from .model import dt_text
     inst = st.datetimes(min_value=datetime.datetime(2, 1, 2), max_value=datetime.datetime(9998, 12, 30)) | \
         st.datetimes(min_value=datetime.datetime(1880, 1, 1), max_value=datetime.datetime(2040, 1, 1))
